@@ -18,12 +18,13 @@ import (
 )
 
 type modelOutcome struct {
-	OK         bool            `json:"ok"`
-	Err        string          `json:"err,omitempty"`
-	AssertErrs []string        `json:"assertErrs,omitempty"` // every class the assertion loops (ranging over Go maps) can report first
-	Dump       *Dump           `json:"dump,omitempty"`
-	Consistent *bool           `json:"consistent,omitempty"`
-	Parts      map[string]bool `json:"parts,omitempty"`
+	OK         bool                   `json:"ok"`
+	Err        string                 `json:"err,omitempty"`
+	AssertErrs []string               `json:"assertErrs,omitempty"` // every class the assertion loops (ranging over Go maps) can report first
+	Dump       *Dump                  `json:"dump,omitempty"`
+	Consistent *bool                  `json:"consistent,omitempty"`
+	Parts      map[string]bool        `json:"parts,omitempty"`
+	Schema     map[string]interface{} `json:"schema,omitempty"` // BuiltSchema.toSchema of the model's result (bridge)
 }
 
 type driverResp struct {
@@ -203,6 +204,8 @@ func (h *harness) check(c caseT, nontrivial bool) *realOutcome {
 			}
 			sort.Strings(bad)
 			run.Violation("NewSchema/AppendType returned an inconsistent schema (failing parts of Consistent: "+strings.Join(bad, ",")+")", replay(map[string]interface{}{"real_parts": resp.Real.Parts}), false)
+		} else if real.Desc != nil && m.Schema != nil && hx.Canon(canonSchema(real.Desc)) != hx.Canon(canonSchema(m.Schema)) {
+			run.Violation("the translated schema (BuiltSchema.toSchema of the model's result) differs from the same rendering of the real schema", replay(map[string]interface{}{"real_schema": canonSchema(real.Desc), "translated_schema": canonSchema(m.Schema)}), false)
 		} else if m.Consistent != nil && !*m.Consistent {
 			run.Violation("the model's schema is inconsistent although the model succeeded (theorem newSchema_ok_consistent contradicted: model/driver fault)", replay(nil), true)
 		}
